@@ -49,6 +49,7 @@ func (e *Engine) registerExterns() {
 	}
 	e.registerIOExterns(reg)
 	e.registerSyncExterns(reg)
+	e.registerCodecExterns(reg)
 }
 
 // uninterp models a deterministic library function as an uninterpreted function symbol.
@@ -63,7 +64,7 @@ func (e *Engine) uninterp(st *State, name string, c *ssa.CallCommon, args []Val)
 // uninterpVals: slices are passed as (header, backing array) so that the result depends on their content.
 func (e *Engine) uninterpVals(st *State, name string, args []Val, rt types.Type) Val {
 	// variadic call with a statically known number of arguments: pass the elements themselves
-	if n := len(args); n > 0 && args[n-1].ArrLen > 0 {
+	if n := len(args); n > 0 && args[n-1].HasArr && args[n-1].ArrLen > 0 && args[n-1].ArrOff == 0 {
 		last := args[n-1]
 		et := last.Ty.Underlying().(*types.Slice).Elem()
 		exp := append([]Val{}, args[:n-1]...)
